@@ -178,6 +178,12 @@ Section C08.
     fst (packet_step joiner_ok key_ok verify_message me B now s p) = s.
   Proof. intros; eapply proposal_packet_refused; eassumption. Qed.
 
+  (* malformed: a proposal without the leader field is refused with an error (it used to panic) *)
+  Theorem C08_reject_no_leader : forall now s p t,
+    gp_body p = PProposal t -> t_leader t = None ->
+    fst (packet_step joiner_ok key_ok verify_message me B now s p) = s.
+  Proof. intros; eapply proposal_without_leader_refused; eassumption. Qed.
+
   Theorem C08_reject_command : forall now s c o,
     c_body c = CResharing o ->
     vp now (effective B s)
@@ -225,6 +231,7 @@ Print Assumptions C08_reject_invented_member.
 Print Assumptions C08_reject_genesis_time_change.
 Print Assumptions C08_reject_genesis_seed_change.
 Print Assumptions C08_reject_packet.
+Print Assumptions C08_reject_no_leader.
 Print Assumptions C08_reject_command.
 Print Assumptions C08_left_panics.
 
